@@ -578,12 +578,11 @@ func (e *SpecEnv) addrOf(s *SExpr) SVal {
 }
 
 func (e *SpecEnv) importedPkg(name string) *types.Package {
-	if e.pkg == nil {
-		return nil
-	}
-	for _, p := range e.pkg.Imports() {
-		if p.Name() == name {
-			return p
+	if e.pkg != nil {
+		for _, p := range e.pkg.Imports() {
+			if p.Name() == name {
+				return p
+			}
 		}
 	}
 	// well-known packages even when not imported by the package under contract
@@ -655,8 +654,8 @@ func (e *SpecEnv) resolveType(ts string) (types.Type, string) {
 	}
 	// spec-only sorts
 	if ts == "seq" || ts == "Seq" {
-		e.u.W.declare("Seq", "(declare-sort Seq 0)")
-		return nil, "Seq"
+		e.u.W.declare("SpecSeq", "(declare-sort SpecSeq 0)")
+		return nil, "SpecSeq"
 	}
 	e.fail("unknown type %q", ts)
 	return nil, ""
@@ -733,6 +732,13 @@ func (e *SpecEnv) call(s *SExpr) SVal {
 				return SVal{Ite(Le(a, b), a, b), numT(args[0], args[1])}
 			}
 			return SVal{Ite(Ge(a, b), a, b), numT(args[0], args[1])}
+		case "strlist":
+			// abstract content of a []string in the current heap
+			evalArgs()
+			a := args[0]
+			hn, hs := heapName(stringT), ArraySort(SPtr, SStr)
+			w.declare("SpecSeq", "(declare-sort SpecSeq 0)")
+			return SVal{w.UF("strlist", "SpecSeq", a.T, e.cur.Heap(hn, hs)), nil}
 		case "ns":
 			evalArgs()
 			return SVal{w.UF("time.ns", SInt, args[0].T), intT}
@@ -763,6 +769,11 @@ func (e *SpecEnv) call(s *SExpr) SVal {
 		if id := fnx.Args[0]; id.Kind == "ident" {
 			if !e.isBound(id.Name) {
 				if p := e.importedPkg(id.Name); p != nil {
+					if id.Name == "strings" && fnx.Name == "Map" && len(s.Args) == 3 && s.Args[1].Kind == "ident" {
+						sv := e.eval(s.Args[2])
+						e.u.usedPureUF["strings.Map$"+s.Args[1].Name] = true
+						return SVal{w.UF("strings.Map$"+s.Args[1].Name, SStr, sv.T), stringT}
+					}
 					evalArgs()
 					if f, ok := p.Scope().Lookup(fnx.Name).(*types.Func); ok {
 						return e.goFuncUF(f, args)
